@@ -194,7 +194,7 @@ Section WF.
     parse_top s tol cx ps = Ok (ONode n) p -> wf_body wf n = true.
   Proof.
     intros ps n p H. unfold parse_top in H.
-    assert (Hg := run_wf (parse_fuel s) (TGeneral ps top_opts 0) eq_refl).
+    assert (Hg := run_wf (parse_fuel s cx) (TGeneral ps top_opts 0) eq_refl).
     cbn [post listy] in Hg. apply parse_content_gbody in Hg. rewrite H in Hg. exact Hg.
   Qed.
 
